@@ -327,8 +327,6 @@ pub const ALL_SCALES: [i32; 5] = [0, -40, 40, -20, 20];
 // ------------------------------------------------------------------------------------------------
 // structured families
 
-pub const ASPECTS: [&str; 6] = ["sq", "t1", "t5", "t2n", "w1", "w5"];
-
 fn extra_rows(k: usize, n: usize, mag: f64) -> Mat {
     (0..k).map(|i| (0..n).map(|j| (((3 * i + 5 * j + i * j + 1) % 7) as f64 - 3.0) * mag).collect()).collect()
 }
